@@ -145,11 +145,42 @@ pub fn grammar(tier: Tier) -> Vec<(Opts, String)> {
     out.into_iter().enumerate().map(|(i, (p, f))| (Opts { p, cfg: cfg_variant(i) }, f)).collect()
 }
 
+/// adjacent groups inside adjacent groups, adjacent groups below adjacent commands
+pub fn nested_adjacent() -> Vec<(Opts, Vec<&'static str>, usize)> {
+    let pos = |m: &str| P::Pos { ty: Ty::Os, strict: Strict::Any, metavar: m.into(), help: None };
+    let point = P::Adj(vec![P::ReqFlag(Names::long("point")), pos("X"), pos("Y")]);
+    let point1 = P::Adj(vec![P::ReqFlag(Names::long("point")), pos("X")]);
+    let rect_many = P::Adj(vec![P::ReqFlag(Names::long("rect")), point.clone().many()]).many();
+    let rect_opt = P::Adj(vec![P::ReqFlag(Names::long("rect")), point1.clone().opt(), P::Switch(Names::short('w'))]).many();
+    let v = P::Switch(Names::short('v'));
+    let cmd_group = P::Cmd { name: "cmd".into(), shorts: vec![], longs: vec![], inner: Box::new(Opts::new(P::Seq(vec![point1.clone().many()]))), adjacent: true, help: None };
+    let cmd_group2 = P::Cmd { name: "cmd".into(), shorts: vec![], longs: vec![], inner: Box::new(Opts::new(P::Seq(vec![P::Switch(Names::short('x')), point1.clone().opt()]))), adjacent: true, help: None };
+    vec![
+        (Opts::new(P::Seq(vec![rect_many.clone()])), vec!["--rect", "--point", "1", "-z"], 8),
+        (Opts::new(P::Seq(vec![v.clone(), rect_many])), vec!["--rect", "--point", "1", "-v"], 8),
+        (Opts::new(P::Seq(vec![v.clone(), rect_opt])), vec!["--rect", "--point", "1", "-v", "-w"], 6),
+        (Opts::new(P::Seq(vec![v.clone(), cmd_group.many()])), vec!["cmd", "--point", "1", "-v"], 7),
+        (Opts::new(P::Seq(vec![v, cmd_group2.many(), pos("T").opt()])), vec!["cmd", "--point", "1", "-v", "-x"], 6),
+    ]
+}
+
 fn hostile(o: &Opts) -> Vec<Tok> {
     let mut a = toks(&["", "-", "--", "---", "=", "-=", "--=", "-a", "-a=", "--alpha=", "--help", "-h", "--version", "v", "bad", "x", "cmd", "-ab", "-?"]);
     a.push(Tok(vec![b'-', 0xff]));
     a.push(Tok(vec![b'-', b'-', 0xff, b'=', 0xff]));
     a.push(Tok(vec![0xff]));
+    // single-dash and double-dash items whose name starts with a stray continuation byte, a
+    // truncated 2-, 3- or 4-byte sequence or an invalid byte, bare / with `=` / with a body
+    for lead in [&[0x80u8][..], &[0xC3], &[0xE4, 0xB8], &[0xF0, 0x9F], &[0xF0], &[0xFF], "é".as_bytes(), "🦀".as_bytes()] {
+        for tail in [&b""[..], b"=", b"=x", b"a", b"a=x"] {
+            for dashes in [&b"-"[..], b"--"] {
+                let mut t = dashes.to_vec();
+                t.extend_from_slice(lead);
+                t.extend_from_slice(tail);
+                a.push(Tok(t));
+            }
+        }
+    }
     let mut cl = vec![b'-'];
     cl.extend(std::iter::repeat(b'a').take(200));
     a.push(Tok(cl));
@@ -184,13 +215,42 @@ fn hostile(o: &Opts) -> Vec<Tok> {
 
 /// the alphabet used for vectors of length 2: the sharpest hostile items and the declared names
 fn hostile_small(o: &Opts) -> Vec<Tok> {
-    let keep: Vec<Tok> = {
-        let mut k = toks(&["", "-", "--", "=", "-a", "--alpha=", "--help", "v", "cmd"]);
-        k.push(Tok(vec![b'-', 0xff]));
-        k.push(Tok(vec![0xff]));
-        k
-    };
-    hostile(o).into_iter().filter(|t| keep.contains(t) || (t.0.len() <= 9 && t.0.starts_with(b"-") && t.0.iter().skip(1).any(|c| c.is_ascii_lowercase()) && !t.0.starts_with(b"-a") && !t.0.starts_with(b"--h") && !t.0.starts_with(b"--v") && !t.0.starts_with(b"-h"))).collect()
+    let mut k = toks(&["", "-", "--", "=", "-a", "--alpha=", "--help", "v", "cmd"]);
+    k.push(Tok(vec![b'-', 0xff]));
+    k.push(Tok(vec![0xff]));
+    k.push(Tok(vec![b'-', 0xC3, b'=', b'x']));
+    k.extend(declared(o));
+    k.sort();
+    k.dedup();
+    k
+}
+
+/// first spelling of every declared name
+fn declared(o: &Opts) -> Vec<Tok> {
+    let mut a = vec![];
+    fn walk(p: &P, a: &mut Vec<Tok>) {
+        match p {
+            P::Switch(n) | P::ReqFlag(n) | P::Flag(n) => {
+                if let Some(s) = n.shorts.first() {
+                    a.push(Tok::s(&format!("-{}", s)));
+                } else if let Some(l) = n.longs.first() {
+                    a.push(Tok::s(&format!("--{}", l)));
+                }
+            }
+            P::Arg { names, .. } => {
+                if let Some(s) = names.shorts.first() {
+                    a.push(Tok::s(&format!("-{}", s)));
+                }
+                if let Some(l) = names.longs.first() {
+                    a.push(Tok::s(&format!("--{}=7", l)));
+                }
+            }
+            P::Cmd { inner, .. } => walk(&inner.p, a),
+            _ => p.children(&mut |c| walk(c, a)),
+        }
+    }
+    walk(&o.p, &mut a);
+    a
 }
 
 fn report(unit: &Value, family: &str, mode: &str, argv: &[Tok], what: &str, ctx: &mut Ctx) {
@@ -202,7 +262,12 @@ fn report(unit: &Value, family: &str, mode: &str, argv: &[Tok], what: &str, ctx:
         Some(i) => (&what[..i], &what[i + 4..]),
         None => (what, ""),
     };
-    let file = at.split(':').next().unwrap_or("").to_string();
+    // path relative to the crate (the repository may live anywhere)
+    let file = at.split(':').next().unwrap_or("");
+    let file = match file.rfind("/src/") {
+        Some(i) => file[i + 1..].to_string(),
+        None => file.to_string(),
+    };
     let masked: String = msg.chars().map(|c| if c.is_ascii_digit() { '#' } else { c }).take(90).collect();
     sig.insert("panic".to_string(), masked);
     sig.insert("file".to_string(), file);
@@ -273,6 +338,10 @@ impl Check for C04 {
     }
     fn units(&self, tier: Tier, seed: u64) -> Vec<Value> {
         let mut out: Vec<Value> = grammar(tier).into_iter().map(|(o, f)| serde_json::to_value(Unit { opts: o, len: tier.pick(2, 2), family: f }).unwrap()).collect();
+        // nested adjacent structures, walked deeply over their own small alphabets
+        for (o, alpha, len) in nested_adjacent() {
+            out.push(serde_json::to_value(Unit { opts: o, len: tier.pick(len, len + 1), family: format!("nested-adjacent:{}", alpha.join(" ")) }).unwrap());
+        }
         // families of the other properties
         for (o, f) in crate::checks::c19::group_shapes(seed) {
             out.push(serde_json::to_value(Unit { opts: o, len: tier.pick(2, 3), family: f }).unwrap());
@@ -302,6 +371,23 @@ impl Check for C04 {
         }
         ctx.count("definitions-accepted-by-check_invariants");
         docs(&p, unit, &u.family, ctx);
+        if let Some(alpha) = u.family.strip_prefix("nested-adjacent:") {
+            let alpha: Vec<Tok> = alpha.split(' ').map(Tok::s).collect();
+            tree(&alpha, u.len, &mut |argv| {
+                ctx.s.states += 1;
+                for mode in ["parse", "comp0"] {
+                    ctx.begin_case(|| json!({"mode": mode, "argv": argv}));
+                    ctx.s.evaluations += 1;
+                    if let Outcome::Panic(e) = run_mode(&p, mode, argv) {
+                        report(unit, &u.family, mode, argv, &e, ctx);
+                    } else if !argv.is_empty() {
+                        ctx.s.nontrivial += 1;
+                    }
+                }
+                true
+            });
+            return;
+        }
         let alpha_full = hostile(&u.opts);
         let alpha_small = hostile_small(&u.opts);
         // purity: a second object built from the same definition is run in reverse order
@@ -398,7 +484,7 @@ impl Check for C04 {
         }
     }
     fn rule(&self) -> String {
-        "definitions = shape grammar: 9 leaves (switch, req_flag, OsString/u32 argument, positional, strict positional, command, pure, fail) under every wrapper (16: optional, optional+catch, many, some, collect+catch, count, last, fallback, failing fallback_with, guard, parse, hide, hide_usage, group_help with a styled non-ASCII title, complete, complete_shell), every wrapper pair (quick: 9 outer wrappers), every binary combination seq/alt/adjacent of two leaves bare, wrapped as a whole and with either side wrapped (thorough: also triples), with 6 rotating option-level configurations (styled multi-fragment non-ASCII descr/header/footer, version, fallback_to_usage, custom help names + usage, max_width), plus group shapes, general shapes and command trees of the other checks; kept iff check_invariants returns; inputs = every single-item vector over the hostile alphabet and every vector of length <= 2 over its sharpest members plus the declared names (empty string, lone dashes, `=` forms, invalid UTF-8 names and values, 200-character cluster and word; 600-character cluster / word / value as single-item vectors, help/version tokens, declared names) in 11 modes (parse, parse with name, completion rev 0/1/7/8/9 with name, 1/7/8/9 without) + completion marker first/last; render_markdown/html/manpage once per definition; histories: every length<=1 vector re-run on the used object and on a second object in reverse order; violation = panic (caught), process death or hang (supervisor), or differing outcome; non-trivial = non-panicking run of a non-empty vector".into()
+        "definitions = shape grammar: 9 leaves (switch, req_flag, OsString/u32 argument, positional, strict positional, command, pure, fail) under every wrapper (16: optional, optional+catch, many, some, collect+catch, count, last, fallback, failing fallback_with, guard, parse, hide, hide_usage, group_help with a styled non-ASCII title, complete, complete_shell), every wrapper pair (quick: 9 outer wrappers), every binary combination seq/alt/adjacent of two leaves bare, wrapped as a whole and with either side wrapped (thorough: also triples), with 6 rotating option-level configurations (styled multi-fragment non-ASCII descr/header/footer, version, fallback_to_usage, custom help names + usage, max_width), plus nested adjacent structures (group in group, group below an adjacent command) walked to 6-8 items over their own alphabets, group shapes, general shapes and command trees of the other checks; kept iff check_invariants returns; inputs = every single-item vector over the hostile alphabet and every vector of length <= 2 over its sharpest members plus the declared names (empty string, lone dashes, `=` forms, invalid UTF-8 names and values (stray continuation bytes, truncated 2/3/4-byte sequences, bare / with = / with a body), 200-character cluster and word; 600-character cluster / word / value as single-item vectors, help/version tokens, declared names) in 11 modes (parse, parse with name, completion rev 0/1/7/8/9 with name, 1/7/8/9 without) + completion marker first/last; render_markdown/html/manpage once per definition; histories: every length<=1 vector re-run on the used object and on a second object in reverse order; violation = panic (caught), process death or hang (supervisor), or differing outcome; non-trivial = non-panicking run of a non-empty vector".into()
     }
     fn bounds(&self, tier: Tier) -> Value {
         json!({"ast_size": tier.pick("<=4 nodes + option-level config", "<=5"), "vector_length": 2, "modes": 17})
